@@ -212,7 +212,13 @@ func mutateMessages(rt *rapid.T, msgs []proto.Message, nfilesOld, nfilesNew int,
 		i := rapid.IntRange(2, len(out)-1).Draw(rt, "mutidx")
 		evil := rapid.SampledFrom(evilInts).Draw(rt, "evil")
 		if rapid.Bool().Draw(rt, "edgeidx") {
-			evil = rapid.SampledFrom([]int64{int64(nfilesOld), int64(nfilesOld) - 1, int64(nfilesNew), int64(nfilesNew) - 1}).Draw(rt, "edgeval")
+			cands := []int64{int64(nfilesOld), int64(nfilesOld) - 1, int64(nfilesNew), int64(nfilesNew) - 1}
+			for fi, sz := range oldSizes {
+				if sz == 0 || sz%BlockSize == 0 {
+					cands = append(cands, int64(fi)) // an empty old file / one that ends on a block boundary
+				}
+			}
+			evil = rapid.SampledFrom(cands).Draw(rt, "edgeval")
 		}
 		switch m := out[i].(type) {
 		case *pwr.SyncHeader:
@@ -228,7 +234,14 @@ func mutateMessages(rt *rapid.T, msgs []proto.Message, nfilesOld, nfilesNew int,
 				desc = append(desc, fmt.Sprintf("msg %d SyncHeader dropped", i))
 			}
 		case *pwr.SyncOp:
-			switch rapid.IntRange(0, 6).Draw(rt, "opmut") {
+			switch rapid.IntRange(0, 7).Draw(rt, "opmut") {
+			case 7:
+				// the same op once more, naming another old file (two old files then contribute to this
+				// new file in related amounts)
+				cl := proto.Clone(m).(*pwr.SyncOp)
+				cl.FileIndex = evil
+				out = append(out[:i+1], append([]proto.Message{cl}, out[i+1:]...)...)
+				desc = append(desc, fmt.Sprintf("msg %d SyncOp (type %v) duplicated with FileIndex=%d", i, m.Type, evil))
 			case 0:
 				m.FileIndex = evil
 				desc = append(desc, fmt.Sprintf("msg %d SyncOp.FileIndex=%d", i, evil))
@@ -371,6 +384,17 @@ func TestC10(t *testing.T) {
 	Ev.Assume("containers inside the stream stay well-formed and no message declares a length beyond the stream (precondition of the property)")
 	Prop(t, "C10", func(rt *rapid.T) {
 		pair := GenPair(rt, GenOpts{Links: true, EmptyDirs: true, LowEntropy: true, MaxMid: 140 * KiB, MaxFiles: 4})
+		if rapid.IntRange(0, 2).Draw(rt, "tieshape") == 0 && canPlace(pair.Old, "tie/e0") && canPlace(pair.New, "tie/e0") {
+			// an empty old file next to a renamed file that ends on a block boundary: a block range
+			// re-aimed at the empty file contributes a related number of bytes to the same new file
+			al := Bytes(rapid.Uint64().Draw(rt, "tieseed"), rapid.IntRange(1, 2).Draw(rt, "tieblocks")*BlockSize)
+			pair.Old["tie/e0"] = &Entry{Kind: KFile, Data: []byte{}}
+			pair.New["tie/e0"] = &Entry{Kind: KFile, Data: []byte{}}
+			pair.Old["tie/al.bin"] = &Entry{Kind: KFile, Data: al}
+			pair.New["tie/renamed.bin"] = &Entry{Kind: KFile, Data: al}
+			pair.Old.Normalize()
+			pair.New.Normalize()
+		}
 		dir, cleanup := RunDir()
 		defer cleanup()
 		oldDir, newDir := filepath.Join(dir, "old"), filepath.Join(dir, "new")
@@ -490,6 +514,35 @@ func TestC10(t *testing.T) {
 			Ev.Fault("message_fields_mutated", len(desc))
 			if runPatchSubjects(stream, fmt.Sprintf("mutations %v", desc), m%3 == 0) {
 				return
+			}
+		}
+		// enumerated: every block range (first 12) once more, re-aimed at every old file that is empty
+		// or ends on a block boundary (first 3)
+		var edgeFiles []int64
+		for fi, f := range rp.Target.Files {
+			if (f.Size == 0 || f.Size%BlockSize == 0) && len(edgeFiles) < 3 {
+				edgeFiles = append(edgeFiles, int64(fi))
+			}
+		}
+		nranges := 0
+		for i, m := range msgs {
+			op, ok := m.(*pwr.SyncOp)
+			if !ok || op.Type != pwr.SyncOp_BLOCK_RANGE || nranges >= 12 {
+				continue
+			}
+			nranges++
+			for _, fi := range edgeFiles {
+				if fi == op.FileIndex {
+					continue
+				}
+				cl := proto.Clone(op).(*pwr.SyncOp)
+				cl.FileIndex = fi
+				mut := append(append(append([]proto.Message{}, msgs[:i+1]...), cl), msgs[i+1:]...)
+				stream := encodeStream(MagicPatch, &pwr.PatchHeader{Compression: comp}, comp, mut)
+				Ev.Fault("block_range_duplicated_onto_edge_file", 1)
+				if runPatchSubjects(stream, fmt.Sprintf("msg %d BLOCK_RANGE(%d,%d,%d) duplicated with FileIndex=%d", i, op.FileIndex, op.BlockIndex, op.BlockSpan, fi), false) {
+					return
+				}
 			}
 		}
 		// header-level malformations: unknown / unregistered compression, missing settings, wrong magic
